@@ -242,3 +242,16 @@ func (rw *recvWriters) writes(m *types.Func) (string, bool) {
 	}
 	return "", false
 }
+
+// DebugRecvWriters prints the receiver-writing methods of package roaring.
+func DebugRecvWriters(p *core.Program) {
+	rw := computeRecvWriters(p, p.Pkg("roaring"))
+	var ks []string
+	for fn, w := range rw.why {
+		ks = append(ks, core.FuncKey(fn)+": "+w)
+	}
+	sort.Strings(ks)
+	for _, k := range ks {
+		println(k)
+	}
+}
